@@ -3,9 +3,15 @@
 
 mod c20;
 mod common;
+mod compile;
 mod entropy;
+mod gen;
 mod group_sim;
+mod node;
 mod rng;
+mod rt;
+mod shrink;
+mod world;
 
 use common::*;
 
@@ -62,18 +68,67 @@ fn main() {
     if argv.is_empty() {
         harness_error("usage: ge-dst <C06|C07|C11|C13|C14|C20|replay|selftest> [--tier quick|thorough] [--seed N] [--runs N] [--workers N]");
     }
+    // panics of the compiler under test are caught and counted; keep stderr quiet
+    std::panic::set_hook(Box::new(|_| {}));
     let cmd = argv[0].clone();
     let args = parse_args(&argv[1..]);
     // the seed is the first thing logged
-    println!("VERIF_SEED={} tier={} cmd={} workers={}", args.seed, args.tier, cmd, args.workers);
+    if cmd != "compile" {
+        println!("VERIF_SEED={} tier={} cmd={} workers={}", args.seed, args.tier, cmd, args.workers);
+    }
     let code = match cmd.as_str() {
         "C20" => c20::check(&args),
+        "C06" => rt::check(&args, gen::Prop::C06),
+        "C07" => rt::check(&args, gen::Prop::C07),
+        "C11" => rt::check(&args, gen::Prop::C11),
+        "jobs" => {
+            // dump executor jobs as NDJSON (benchmarking / debugging aid)
+            let n: u64 = args.runs.unwrap_or(100);
+            for i in 0..n {
+                let w = gen::generate(rt::seed_of(args.seed, gen::Prop::C06, i), gen::Prop::C06);
+                if let Ok(mut j) = rt::build_job(&world::world_to_json(&w), false) {
+                    j["id"] = serde_json::json!(i);
+                    println!("{}", j);
+                }
+            }
+            0
+        }
+        "gen" => {
+            // print generated worlds (debugging aid)
+            let prop = match args.rest.first().map(|s| s.as_str()) {
+                Some("C07") => gen::Prop::C07,
+                Some("C11") => gen::Prop::C11,
+                Some("C14") => gen::Prop::C14,
+                _ => gen::Prop::C06,
+            };
+            let i: u64 = args.rest.get(1).and_then(|s| s.parse().ok()).unwrap_or(0);
+            let w = gen::generate(rt::seed_of(args.seed, prop, i), prop);
+            println!("{}", serde_json::to_string_pretty(&world::world_to_json(&w)).unwrap());
+            0
+        }
         "replay" => {
             let Some(p) = args.rest.first() else { harness_error("replay needs a file") };
             let v = read_json(std::path::Path::new(p)).unwrap_or_else(|e| harness_error(&e));
             match v["engine"].as_str().unwrap_or("") {
                 "group" => c20::replay(&v, p, args.quiet),
+                "runtime" => rt::replay(&v, p, args.quiet),
                 x => harness_error(&format!("unknown engine in replay file: {}", x)),
+            }
+        }
+        "compile" => {
+            let mut inp = String::new();
+            std::io::Read::read_to_string(&mut std::io::stdin(), &mut inp).unwrap();
+            let v: serde_json::Value = serde_json::from_str(&inp).unwrap_or_else(|e| harness_error(&e.to_string()));
+            let pairs = |k: &str| -> Vec<(String, String)> {
+                v[k].as_array().map(|a| a.iter().map(|x| (x[0].as_str().unwrap_or("").to_string(), x[1].as_str().unwrap_or("").to_string())).collect()).unwrap_or_default()
+            };
+            match compile::compile_group(&pairs("files"), &pairs("scripts")) {
+                Ok(c) => {
+                    eprintln!("warn_or_worse={}", c.warn_or_worse);
+                    print!("{}", c.bundle);
+                    0
+                }
+                Err(e) => harness_error(&e),
             }
         }
         "selftest" => match args.rest.first().map(|s| s.as_str()) {
